@@ -241,7 +241,7 @@ PROPS['C01'] = dict(
     outside='histories whose relevance needs >= 3 distinct trials; parameter payloads beyond one DOUBLE parameter; '
             'SQL datastore (C07 simulation step)',
     obligations=[
-        O('C01.complete_trial', 'harness.c01_lifecycle', 'complete_trial', 300, 900, 'CompleteTrial vs reference model', _C01_BOUND),
+        O('C01.complete_trial', 'harness.c01_lifecycle', 'complete_trial', 600, 1200, 'CompleteTrial vs reference model', _C01_BOUND),
         O('C01.add_measurement', 'harness.c01_lifecycle', 'add_measurement', 200, 600, 'AddTrialMeasurement vs reference model', _C01_BOUND),
         O('C01.stop_trial', 'harness.c01_lifecycle', 'stop_trial', 200, 600, 'StopTrial vs reference model', _C01_BOUND),
         O('C01.delete_trial', 'harness.c01_lifecycle', 'delete_trial', 200, 600, 'DeleteTrial vs reference model', _C01_BOUND),
@@ -311,10 +311,12 @@ def _pareto_obls():
                  '%s.is_pareto_optimal_against, strict and non-strict (recursive split of the points)' % a,
                  '2 points vs 1 point x 2 coordinates', env={'VERIF_PARETO': a}))
   for a in ['fast1', 'fast2']:
-    out.append(O('C11.%s_against_4v1' % a, 'harness.c11_pareto', 'against_4v1_distinct_x', 450 if a == 'fast1' else None, 1500,
-                 '%s.is_pareto_optimal_against on 4 points with distinct first coordinates (the recursion really splits)' % a,
-                 '4 points (x fixed distinct, y arbitrary) vs 1 arbitrary point, strict and non-strict',
-                 env={'VERIF_PARETO': a}))
+    for k in range(4):
+      out.append(O('C11.%s_against_4v1_s%d' % (a, k), 'harness.c11_pareto', 'against_4v1_distinct_x',
+                   400 if a == 'fast1' else None, 900,
+                   '%s.is_pareto_optimal_against on 4 points with distinct first coordinates (the recursion really splits)' % a,
+                   '4 points (x fixed distinct, y arbitrary) vs 1 arbitrary point; slice %d/4 (strictness x side of the against point)' % k,
+                   env={'VERIF_PARETO': a, 'VERIF_SLICE': str(k)}))
   for a in ['naive', 'fast1', 'fast2', 'jax', 'nsga2rank']:
     out.append(O('C11.%s_3x3' % a, 'harness.c11_pareto', 'points_3x3', None, 1500, '%s, 3 coordinates' % a,
                  '3 points x 3 coordinates: 2197 order types', env={'VERIF_PARETO': a}))
